@@ -266,6 +266,54 @@ impl Payload for Wide {
         Self::make(val).canon()
     }
 }
+/// zero-sized payload
+#[derive(Clone, PartialEq, Eq, Debug)]
+#[cfg_attr(feature = "ix-deser", derive(serde::Serialize, serde::Deserialize))]
+pub struct Unit;
+impl fmt::Display for Unit {
+    fn fmt(&self, f: &mut fmt::Formatter<'_>) -> fmt::Result {
+        f.write_str("u")
+    }
+}
+impl Payload for Unit {
+    const NAME: &'static str = "unit";
+    fn make(_val: u32) -> Self {
+        Unit
+    }
+    fn canon(&self) -> String {
+        "()".into()
+    }
+    fn canon_of(_val: u32) -> String {
+        "()".into()
+    }
+}
+
+/// a large inline payload (256 bytes)
+#[derive(Clone, PartialEq, Eq, Debug)]
+#[cfg_attr(feature = "ix-deser", derive(serde::Serialize, serde::Deserialize))]
+pub struct Big(pub [u64; 32]);
+impl fmt::Display for Big {
+    fn fmt(&self, f: &mut fmt::Formatter<'_>) -> fmt::Result {
+        write!(f, "big{}\n{}", self.0[0], self.0[31])
+    }
+}
+impl Payload for Big {
+    const NAME: &'static str = "big";
+    fn make(val: u32) -> Self {
+        let mut a = [0u64; 32];
+        for (i, x) in a.iter_mut().enumerate() {
+            *x = (val as u64).wrapping_mul(i as u64 + 1) ^ (i as u64);
+        }
+        Big(a)
+    }
+    fn canon(&self) -> String {
+        format!("{}:{}:{}", self.0[0], self.0[1], self.0[31])
+    }
+    fn canon_of(val: u32) -> String {
+        Self::make(val).canon()
+    }
+}
+
 impl Payload for String {
     const NAME: &'static str = "string";
     fn make(val: u32) -> Self {
